@@ -204,6 +204,8 @@ pub fn shrink(original: &Plan, class: &str, max_candidates: u32, max_time: Durat
     try_edit(&mut plan, class, &mut b, &mut steps, "inputs-unique", |p| p.cfg.input_mode = InputMode::Unique);
     try_edit(&mut plan, class, &mut b, &mut steps, "repeat-last-predictor", |p| p.cfg.predict_default = false);
     try_edit(&mut plan, class, &mut b, &mut steps, "no-clock-bump", |p| p.cfg.clock_bump_us = 0);
+    try_edit(&mut plan, class, &mut b, &mut steps, "plain-submissions", |p| p.cfg.shuffle_submissions = false);
+    try_edit(&mut plan, class, &mut b, &mut steps, "state-in-cells", |p| p.cfg.own_snapshots = false);
     // shrink windows to the shortest that still fails (halving)
     for wi in 0..plan.windows.len() {
         for _ in 0..6 {
